@@ -199,7 +199,7 @@ func (fv *FV) callByContract(st *State, fn *ssa.Function, spec *FuncSpec, c *ssa
 func (fv *FV) applyContract(st *State, spec *FuncSpec, fn *ssa.Function, c *ssa.CallCommon, args []Term, pos token.Pos, sig *types.Signature) []Term {
 	spec.Used = true
 	fv.calleesByContract[spec.Key] = true
-	fv.siteAsserts(st, lastPart(spec.Key), false, nil, pos)
+	fv.siteAsserts(st, lastPart(spec.Key), false, nil, args, pos)
 	for _, a := range args {
 		st.escapeTerm(a)
 	}
@@ -417,14 +417,14 @@ func (fv *FV) applyContract(st *State, spec *FuncSpec, fn *ssa.Function, c *ssa.
 		fv.outsidef("contract error at call of %s: %s", spec.Key, e)
 	}
 	fv.bindGhosts(st, lastPart(spec.Key), res)
-	fv.siteAsserts(st, lastPart(spec.Key), true, res, pos)
+	fv.siteAsserts(st, lastPart(spec.Key), true, res, args, pos)
 	return res
 }
 
 // siteAsserts: assert LABEL: EXPR before|after CALLEE[#k] - obligations at a call site of the function
 // under verification (top-level frame only). "before" is evaluated before the callee's precondition is
 // checked, with the ordinal the call is about to get; "after" once its postcondition has been assumed.
-func (fv *FV) siteAsserts(st *State, callee string, after bool, res []Term, pos token.Pos) {
+func (fv *FV) siteAsserts(st *State, callee string, after bool, res []Term, args []Term, pos token.Pos) {
 	if fv.spec == nil || len(fv.spec.Asserts) == 0 || st.frame == nil || st.frame.ID != 0 {
 		return
 	}
@@ -444,6 +444,10 @@ func (fv *FV) siteAsserts(st *State, callee string, after bool, res []Term, pos 
 		}
 		if len(res) > 1 {
 			env.vars["callresult1"] = res[1]
+		}
+		for k, av := range args {
+			// callarg0 is the receiver of a method call, callarg1.. the arguments
+			env.vars[fmt.Sprintf("callarg%d", k)] = av
 		}
 		g := env.Eval(a.Clause.E)
 		if len(errs) > 0 {
